@@ -19,6 +19,7 @@ import (
 	"time"
 
 	"github.com/gotid/god/api/chain"
+	"github.com/gotid/god/api/httpx"
 	"github.com/gotid/god/internal/verifdrv"
 	"github.com/gotid/god/lib/logx"
 )
@@ -26,12 +27,13 @@ import (
 // ---------------------------------------------------------------------------- case format
 
 type verifC02Action struct {
-	A  string `json:"a"` // set | add | del | wh | w | panic
-	K  int    `json:"k"`
-	V  int    `json:"v"`
-	C  int    `json:"c"`
-	B  string `json:"b"`
-	PV string `json:"pv"` // panic: kind of the panic value
+	A   string `json:"a"` // set | add | del | wh | w | panic
+	K   int    `json:"k"`
+	V   int    `json:"v"`
+	C   int    `json:"c"`
+	B   string `json:"b"`
+	PV  string `json:"pv"`  // panic: kind of the panic value
+	Ctx bool   `json:"ctx"` // err: httpx.ErrorCtx instead of httpx.Error
 }
 
 type verifC02Fire struct {
@@ -55,6 +57,12 @@ type verifC02Case struct {
 	Rh0      []verifC02Hdr    `json:"rh0"`
 	Acts     []verifC02Action `json:"acts"`
 	Fire     verifC02Fire     `json:"fire"`
+	// application-wide error handler installed through httpx while the case runs (reset afterwards)
+	GConf struct {
+		Mode string `json:"mode"` // "" | none | plain (httpx.SetErrorHandler) | ctx (httpx.SetErrorHandlerCtx)
+		Code int    `json:"code"`
+		Body string `json:"body"` // what the handler returns besides the code: nil | err | json
+	} `json:"gconf"`
 	// conns
 	N     int          `json:"n"`
 	Reqs  int          `json:"reqs"`
@@ -202,7 +210,17 @@ func (s *verifC02Script) serve(w http.ResponseWriter, r *http.Request) {
 		s.mu.Lock()
 		s.trace = append(s.trace, "panic") // provisional: stays if the action panics
 		s.mu.Unlock()
-		out := verifC02Do(w, a)
+		var out string
+		if a.A == "err" { // the business code reports an error through httpx
+			if a.Ctx {
+				httpx.ErrorCtx(r.Context(), w, errors.New("verif-err"))
+			} else {
+				httpx.Error(w, errors.New("verif-err"))
+			}
+			out = "ok"
+		} else {
+			out = verifC02Do(w, a)
+		}
 		s.mu.Lock()
 		s.trace[i] = out
 		s.mu.Unlock()
@@ -305,7 +323,30 @@ func verifC02Do(w http.ResponseWriter, a verifC02Action) string {
 }
 
 // one attempt; ok=false means a real timer fired before the forced cut was reached (retry)
+// verifC02Install installs the case's application-wide httpx error handler and returns the function that removes it.
+func verifC02Install(mode string, code int, body string) func() {
+	result := func() (int, any) {
+		switch body {
+		case "err":
+			return code, errors.New("biz")
+		case "json":
+			return code, map[string]string{"m": "biz"}
+		}
+		return code, nil
+	}
+	switch mode {
+	case "plain":
+		httpx.SetErrorHandler(func(error) (int, any) { return result() })
+		return func() { httpx.SetErrorHandler(nil) }
+	case "ctx":
+		httpx.SetErrorHandlerCtx(func(context.Context, error) (int, any) { return result() })
+		return func() { httpx.SetErrorHandlerCtx(nil) }
+	}
+	return func() {}
+}
+
 func verifC02RunTw(c *verifC02Case) (obs map[string]any, ok bool) {
+	defer verifC02Install(c.GConf.Mode, c.GConf.Code, c.GConf.Body)()
 	s := &verifC02Script{acts: c.Acts, ready: make(chan int), release: make(chan struct{})}
 	// idone closes when everything inside Recover (MaxBytes + scripted handler) has returned or panicked
 	idone := make(chan struct{})
